@@ -110,3 +110,14 @@ package asp
 //@   opt inline=off
 //@   opt precall=off
 //@   callsite (scope).Assert frozen_lists_are_accepted [C18]: contains(arg_msg, "must be lists") && listlike(seq) ==> arg_condition
+
+// Equality (==, !=): reflect.DeepEqual distinguishes a frozen list/dict from an ordinary one with the same
+// contents (different Go types), so it may only ever be applied to values that are not containers; lists
+// and dicts are compared structurally, item by item.
+//@ spec dictlike(x pyObject) bool = dyntype(x, pyDict) || dyntype(x, pyFrozenDict)
+//@ func (scope).interpretOp
+//@   opt nopanic=off
+//@   opt panics=allowed
+//@   opt inline=off
+//@   opt precall=off
+//@   callsite reflect.DeepEqual containers_are_compared_structurally [C18]: !listlike(arg_x) && !dictlike(arg_x)
